@@ -214,9 +214,20 @@ def gen_c04(env, tier):
 def gen_c05(env, tier):
     rnd, gen = env.rnd, env.gen
     n_cases = 220 if tier == "quick" else 3500
-    for _ in range(n_cases):
+    n_resid = 70 if tier == "quick" else 1200
+    for q in range(n_cases + n_resid):
         nd = rnd.choice([1, 2, 2, 3])
         case = gen.shared_case(nd=nd, maxrows=8)
+        if q >= n_cases:
+            # rounding residue: a cell on a common category is a margin minus the other cells; with weights that are not
+            # binary fractions that difference is 1e-16 rather than 0 for a cell without rows. Which cells are missing
+            # must not depend on that, i.e. on which category happens to be stored as common.
+            case = gen.shared_case(rnd.choice(["mean", "mean", "sum", "valid_count"]), nd=rnd.choice([2, 2, 3]), maxrows=8)
+            case.weights = gen.weights(case.n, nondyadic=True)
+            case.fmt = rnd.choice([("tuple", 0), ("tuple", -1), ("plain", 0), ("nan",)])
+            if case.func == "valid_count" and case.fmt[0] == "plain":
+                case.ignore = True
+            nd = len(case.dims)
         base = env.index_dims(case)
         for d in range(nd):
             ext = case.ishape[d]
